@@ -788,6 +788,140 @@ theorem liftTarget_lift_applies_flat (S : Schema) (hts : C01.TextStable S) (doc 
     exact ⟨doc', hap, C01.apply_valid S (.replaceAround f' t' gs ge ⟨[], 0, 0⟩ 0 true) _ doc' hv hpay hap,
       lift_keeps_content S _ doc' a b depth target _ hab hb hap⟩
 
+/-- non-trivial instances of all hypotheses: `doc(blockquote(p("a")))`, lifting the only paragraph -/
+private def liftDoc : Node := .elem 0 [] [] [.elem 1 [] [] [.elem 2 [] [] [.text [97] []]]]
+
+example : liftTarget exSchema liftDoc 2 3 1 = some (some 0) := by rfl
+example : liftFlatGuard liftDoc 2 3 1 0 = true := by rfl
+example : liftStep liftDoc 2 3 1 0 = .ok (.replaceAround 0 5 1 4 ⟨[], 0, 0⟩ 0 true) := by rfl
+example : ∃ doc', exSchema.apply (.replaceAround 0 5 1 4 ⟨[], 0, 0⟩ 0 true) liftDoc = .ok doc' ∧
+    C01.Valid exSchema doc' ∧
+    (ftoks doc'.kids).filter Tok.isContent = (ftoks liftDoc.kids).filter Tok.isContent :=
+  liftTarget_lift_applies_flat exSchema ex_stable liftDoc 2 3 1 0 _ _ _ rfl rfl rfl rfl (by decide) (by decide)
+    (.inl (by decide)) (.inl (by decide)) rfl rfl rfl
+
+/-- … and two levels at once: `doc: (A | p)+`, `A: B+`, `B: p+`; in `doc(A(B(p("a"))))` the paragraph cannot go
+    into `A`, it is lifted to depth 0 through both wrappers (`ReplaceAroundStep(0, 7, 2, 5, Slice.empty, 0)`) -/
+private def lift2Schema : Schema :=
+  { nodes := #[exNT "doc" false false #[⟨false, [(1, 1), (3, 1)]⟩, ⟨true, [(1, 1), (3, 1)]⟩],
+      exNT "A" false false #[⟨false, [(2, 1)]⟩, ⟨true, [(2, 1)]⟩],
+      exNT "B" false false #[⟨false, [(3, 1)]⟩, ⟨true, [(3, 1)]⟩],
+      exNT "p" false true #[⟨true, [(4, 0)]⟩], exNT "text" true false #[⟨true, []⟩]],
+    marks := #[], top := 0, textTy := 4 }
+
+private def lift2Doc : Node :=
+  .elem 0 [] [] [.elem 1 [] [] [.elem 2 [] [] [.elem 3 [] [] [.text [97] []]]]]
+
+example : liftTarget lift2Schema lift2Doc 3 4 2 = some (some 0) := by rfl
+example : ∃ doc', lift2Schema.apply (.replaceAround 0 7 2 5 ⟨[], 0, 0⟩ 0 true) lift2Doc = .ok doc' ∧
+    C01.Valid lift2Schema doc' ∧
+    (ftoks doc'.kids).filter Tok.isContent = (ftoks lift2Doc.kids).filter Tok.isContent :=
+  liftTarget_lift_applies_flat lift2Schema (textStable_of_C _ (by decide)) lift2Doc 3 4 2 0 _ _ _ rfl rfl rfl rfl
+    (by decide) (by decide) (.inl (by decide)) (.inl (by decide)) rfl rfl rfl
+
+/-- the guard is needed, (b): `doc: blockquote | paragraph+`; in `exDoc = doc(blockquote(p("a"), p("b")))` lifting
+    the second paragraph is approved (`doc(p("b"))` is valid) … -/
+private def liftCopySchema : Schema :=
+  { nodes := #[exNT "doc" false false #[⟨false, [(1, 1), (2, 2)]⟩, ⟨true, []⟩, ⟨true, [(2, 2)]⟩],
+      exNT "blockquote" false false #[⟨false, [(2, 1)]⟩, ⟨true, [(2, 1)]⟩],
+      exNT "paragraph" false true #[⟨true, [(3, 0)]⟩], exNT "text" true false #[⟨true, []⟩]],
+    marks := #[], top := 0, textTy := 3 }
+
+example : C01.Valid liftCopySchema exDoc := by rfl
+example : textStableC liftCopySchema = true := by decide
+example : liftTarget liftCopySchema exDoc 5 6 1 = some (some 0) := by rfl
+/-- … the blockquote has to be split before it … -/
+example : liftFlatGuard exDoc 5 6 1 0 = false := by rfl
+example : liftStep exDoc 5 6 1 0 = .ok (.replaceAround 4 8 4 7 ⟨[.elem 1 [] [] []], 1, 0⟩ 1 true) := by rfl
+/-- (a structure-flagged replace-around step, evaluated from its parts) -/
+private theorem apply_around_of_parts (S : Schema) (doc : Node) (f t gf gt : Nat) (sl : Slice) (i : Nat)
+    (gap : List Node) (ins : Slice) (r : Res Node)
+    (h1 : contentBetween doc f gf = some false) (h2 : contentBetween doc gt t = some false)
+    (h3 : doc.slice gf gt = .ok ⟨gap, 0, 0⟩) (h4 : sl.insertAt S i gap = .ok (some ins))
+    (h5 : S.fromReplace doc f t ins = r) : S.apply (.replaceAround f t gf gt sl i true) doc = r := by
+  simp [Schema.apply, h1, h2, h3, h4, h5]
+
+/-- … and the step is refused: `doc(blockquote(p("a")), p("b"))` is not valid content of `doc` -/
+example : liftCopySchema.apply (.replaceAround 4 8 4 7 ⟨[.elem 1 [] [] []], 1, 0⟩ 1 true) exDoc
+    = .error .failed := by
+  refine apply_around_of_parts liftCopySchema exDoc 4 8 4 7 _ 1 [.elem 2 [] [] [.text [98] []]]
+    ⟨[.elem 1 [] [] [], .elem 2 [] [] [.text [98] []]], 1, 0⟩ _ rfl rfl ?_ ?_ ?_
+  · simp [Node.slice, exDoc, Node.kids, sliceKids, inRange, sliceScan, sliceHere, fcut, fcutLoop, depthAt]
+  · simp [Slice.insertAt, insertInto, flatInsert, fcut, fappend, addNode]
+  · have hv : liftCopySchema.validContent 0
+        [.elem 1 [] [] [.elem 2 [] [] [.text [97] []]], .elem 2 [] [] [.text [98] []]] = false := by decide
+    have hv1 : liftCopySchema.validContent 1 [.elem 2 [] [] [.text [97] []]] = true := by decide
+    simp [Schema.fromReplace, Schema.replace, exDoc, replaceKids, hv, hv1, rightJoin, middle, RSplit.rest,
+      inRange, depthAt, Slice.wf, spineL, spineR, outer, atLevel, threeWay, threeWay.rightJoinCheck, twoWay,
+      splitRight, Schema.close, fromArray, addNodes, addNode, Except.map, Schema.compatibleContent]
+
+/-- the guard is needed, (a) (open finding C12-lift-split-invalid): `doc: list+`, `list: item+`, `item: p list?`;
+    in `doc(list(item(p, list(item(p), item(p)))))` lifting the first inner item (`NodeRange(5, 9, 3)`, also what
+    `block_range` gives at position 6) to depth 1 is approved: `can_cut` finds `item(p)` and `list(item(p))` valid —
+    but the right half of the split outer item is `item(list(item(p)))`, without its leading paragraph -/
+private def liftNestSchema : Schema :=
+  { nodes := #[exNT "doc" false false #[⟨false, [(1, 1)]⟩, ⟨true, [(1, 1)]⟩],
+      exNT "list" false false #[⟨false, [(2, 1)]⟩, ⟨true, [(2, 1)]⟩],
+      exNT "item" false false #[⟨false, [(3, 1)]⟩, ⟨true, [(1, 2)]⟩, ⟨true, []⟩],
+      exNT "p" false true #[⟨true, [(4, 0)]⟩], exNT "text" true false #[⟨true, []⟩]],
+    marks := #[], top := 0, textTy := 4 }
+
+private def liftNestDoc : Node :=
+  .elem 0 [] [] [.elem 1 [] [] [.elem 2 [] [] [.elem 3 [] [] [],
+    .elem 1 [] [] [.elem 2 [] [] [.elem 3 [] [] []], .elem 2 [] [] [.elem 3 [] [] []]]]]]
+
+example : C01.Valid liftNestSchema liftNestDoc := by rfl
+example : textStableC liftNestSchema = true := by decide
+example : liftTarget liftNestSchema liftNestDoc 5 9 3 = some (some 1) := by rfl
+example : liftFlatGuard liftNestDoc 5 9 3 1 = false := by rfl
+example : liftStep liftNestDoc 5 9 3 1 = .ok (.replaceAround 4 9 5 9
+    ⟨[.elem 2 [] [] [], .elem 2 [] [] [.elem 1 [] [] []]], 1, 2⟩ 1 true) := by rfl
+example : liftNestSchema.apply (.replaceAround 4 9 5 9
+    ⟨[.elem 2 [] [] [], .elem 2 [] [] [.elem 1 [] [] []]], 1, 2⟩ 1 true) liftNestDoc = .error .failed := by
+  refine apply_around_of_parts liftNestSchema liftNestDoc 4 9 5 9 _ 1 [.elem 2 [] [] [.elem 3 [] [] []]]
+    ⟨[.elem 2 [] [] [], .elem 2 [] [] [.elem 3 [] [] []], .elem 2 [] [] [.elem 1 [] [] []]], 1, 2⟩ _ rfl rfl ?_ ?_ ?_
+  · simp [Node.slice, liftNestDoc, Node.kids, sliceKids, inRange, sliceScan, sliceHere, fcut, fcutLoop, depthAt]
+  · simp [Slice.insertAt, insertInto, flatInsert, fcut, fcutLoop, fappend, addNode]
+  · have hv : liftNestSchema.validContent 2 [.elem 1 [] [] [.elem 2 [] [] [.elem 3 [] [] []]]] = false := by decide
+    have hv1 : liftNestSchema.validContent 2 [.elem 3 [] [] []] = true := by decide
+    have hv2 : liftNestSchema.validContent 1 [.elem 2 [] [] [.elem 3 [] [] []]] = true := by decide
+    simp [Schema.fromReplace, Schema.replace, liftNestDoc, replaceKids, hv, hv1, hv2, rightJoin,
+      inRange, depthAt, Slice.wf, spineL, spineR, outer, atLevel, threeWay, threeWay.rightJoinCheck, twoWay,
+      splitRight, Schema.close, fromArray, addNodes, addNode, Except.map, Schema.compatibleContent]
+
+/-- `TextStable` is needed (nothing is split here): `p: (text|image) (text|image|span) (text|image)`, `span`
+    inline with content `text*`; in `doc(p("a", span("b"), "c"))` lifting `"b"` out of the span
+    (`NodeRange(3, 4, 2)`) is approved: `can_replace` accepts `text text text` — the replace merges them into
+    `p("abc")` and `p` refuses a single child (`TransformError('Invalid content for node p')`) -/
+private def liftTsSchema : Schema :=
+  { nodes := #[exNT "doc" false false #[⟨false, [(1, 1)]⟩, ⟨true, [(1, 1)]⟩],
+      exNT "p" false true #[⟨false, [(3, 1), (4, 1)]⟩, ⟨false, [(3, 2), (4, 2), (2, 2)]⟩,
+        ⟨false, [(3, 3), (4, 3)]⟩, ⟨true, []⟩],
+      { exNT "span" false true #[⟨true, [(3, 0)]⟩] with isInline := true },
+      exNT "text" true false #[⟨true, []⟩],
+      { exNT "image" true false #[⟨true, []⟩] with isText := false }],
+    marks := #[], top := 0, textTy := 3 }
+
+private def liftTsDoc : Node :=
+  .elem 0 [] [] [.elem 1 [] [] [.text [97] [], .elem 2 [] [] [.text [98] []], .text [99] []]]
+
+example : C01.Valid liftTsSchema liftTsDoc := by rfl
+example : fnorm liftTsDoc.kids = true := by rfl
+example : liftTarget liftTsSchema liftTsDoc 3 4 2 = some (some 1) := by rfl
+example : liftFlatGuard liftTsDoc 3 4 2 1 = true := by rfl
+example : liftStep liftTsDoc 3 4 2 1 = .ok (.replaceAround 2 5 3 4 ⟨[], 0, 0⟩ 0 true) := by rfl
+example : ¬ C01.TextStable liftTsSchema := by
+  intro h
+  have := h 1 0 1 2 (by rfl) (by rfl)
+  omega
+example : liftTsSchema.apply (.replaceAround 2 5 3 4 ⟨[], 0, 0⟩ 0 true) liftTsDoc = .error .failed := by
+  refine apply_around_of_parts liftTsSchema liftTsDoc 2 5 3 4 _ 0 [.text [98] []] ⟨[.text [98] []], 0, 0⟩ _ rfl rfl ?_
+    (insertAt_empty _ _) ?_
+  · simp [Node.slice, liftTsDoc, Node.kids, sliceKids, inRange, sliceScan, sliceHere, fcut, depthAt]
+  · have hv : liftTsSchema.validContent 1 [.text [97, 98, 99] []] = false := by decide
+    simp [Schema.fromReplace, Schema.replace, liftTsDoc, replaceKids, hv,
+      inRange, depthAt, Slice.wf, spineL, spineR, outer, atLevel, fcut, fcutLoop, fappend, addNode, Except.map]
+
 /-! ### LIFT-END -/
 
 end PM.C12
